@@ -22,7 +22,7 @@ ANCHORS = ["goose/mh.py:mh_step"]
 ASSUMPTIONS = ["jax.random.uniform, jnp.exp and lax.cond are trusted primitives",
                "float32 uniforms are multiples of 2^-23, so acceptance at alpha=2^-100 identifies a draw of exactly 0"]
 WORKERS = 16
-TIMEOUT = {"quick": 900, "thorough": 3600}
+TIMEOUT = {"quick": 1500, "thorough": 10800}
 
 # seeds s for which jax.random.uniform(PRNGKey(s)) == 0.0 (found by the thorough search;
 # they are *verified* black-box before use, never trusted)
